@@ -8,7 +8,8 @@ Import ListNotations.
 Open Scope N_scope.
 
 (* operations the sanitizer issues on its (buffered) reader; OAlloc is a pure event: a heap request of n bytes *)
-Inductive op := OFillEmpty | OReadExact (n : N) | OSkip (n : N) | OPos | OLen | OAlloc (n : N).
+(* OReadUpTo n: a plain `read` loop collecting at most n bytes; short only at the end of the stream (never an EOF error) *)
+Inductive op := OFillEmpty | OReadExact (n : N) | OSkip (n : N) | OPos | OLen | OAlloc (n : N) | OReadUpTo (n : N).
 Inductive resp := RBool (b : bool) | RBytes (l : bytes) | RUnit | RNum (n : N) | RErr (e : ioerr).
 
 Inductive prog (A : Type) :=
@@ -48,6 +49,8 @@ Definition do_pos : prog N :=
   Do OPos (fun r => match r with RNum n => Ret (Ok n) | RErr e => io_err None e | _ => Ret (Panic bad_resp) end).
 Definition do_len : prog N :=
   Do OLen (fun r => match r with RNum n => Ret (Ok n) | RErr e => io_err None e | _ => Ret (Panic bad_resp) end).
+Definition do_read_upto (n : N) : prog bytes :=
+  Do (OReadUpTo n) (fun r => match r with RBytes l => Ret (Ok l) | RErr e => io_err None e | _ => Ret (Panic bad_resp) end).
 Definition do_alloc (n : N) : prog unit :=
   Do (OAlloc n) (fun _ => Ret (Ok tt)).
 
@@ -124,7 +127,7 @@ Definition cursor_step (inp : input) (lenient : bool) (max_seek : N) (o : op) (p
   match o with
   | OFillEmpty => (RBool (ilen inp <=? pos), pos)
   | OReadExact n =>
-      if pos + n <=? ilen inp then (RBytes (iread inp pos (N.to_nat n)), pos + n)
+      if (n =? 0) || (pos + n <=? ilen inp) then (RBytes (iread inp pos (N.to_nat n)), pos + n)   (* read_exact of an empty buffer never fails *)
       else (RErr EUnexpectedEof, N.max pos (ilen inp))
   | OSkip n =>
       if lenient then
@@ -136,6 +139,8 @@ Definition cursor_step (inp : input) (lenient : bool) (max_seek : N) (o : op) (p
   | OPos => (RNum pos, pos)
   | OLen => (RNum (ilen inp), pos)
   | OAlloc _ => (RUnit, pos)
+  | OReadUpTo n =>
+      let k := N.min n (ilen inp - pos) in (RBytes (iread inp pos (N.to_nat k)), pos + k)
   end.
 
 Definition cursor (inp : input) (lenient : bool) (max_seek : N) : reader :=
